@@ -185,4 +185,9 @@ def innerOpDiaJ (j : Json) : Except String Json := do
   let r ← diaOf j "right"
   pure <| Json.mkObj [("value", ciJ (innerOpDia ciConj l o r (← getBool j "scalar_is_ket")))]
 
+/-- {a} -> the answer of the loops of `isherm_dia` with exact comparisons -/
+def ishermDiaJ (j : Json) : Except String Json := do
+  let a ← diaOf j "a"
+  pure <| Json.mkObj [("isherm", ishermDia (fun (x y : CI) => x == ciConj y) (fun (x : CI) => x == (0 : CI)) a)]
+
 end Qv.Drv.C01
